@@ -4,6 +4,8 @@ mod stream;
 mod histprop;
 mod l1;
 mod l2;
+mod l3;
+mod netpipe;
 mod panics;
 mod props;
 mod respcheck;
@@ -90,6 +92,14 @@ fn check(id: &'static str, tier: Tier) -> i32 {
             let mut ctx = Ctx::new(id, tier, "exploration");
             props::evict::check(&mut ctx, props::evict::Which::C15)
         }
+        "C12" => {
+            let mut ctx = Ctx::new(id, tier, "exploration");
+            props::c12::check(&mut ctx)
+        }
+        "C13" => {
+            let mut ctx = Ctx::new(id, tier, "fault_enumeration");
+            props::c13::check(&mut ctx)
+        }
         "C19" => {
             let mut ctx = Ctx::new(id, tier, "exploration");
             props::c19::check(&mut ctx)
@@ -113,6 +123,8 @@ fn replay(id: &'static str, path: &str) -> i32 {
         "C10" => props::c10::replay(path),
         "C09" => props::c09::replay(path),
         "C19" => props::c19::replay(path),
+        "C13" => props::c13::replay(path),
+        "C12" => props::c12::replay("C12", path),
         "C14" => props::evict::replay(props::evict::Which::C14, path),
         "C15" => props::evict::replay(props::evict::Which::C15, path),
         "C03" => props::conc::replay(props::conc::cfg_c03(), path),
